@@ -30,6 +30,7 @@ W_PAREN = ["(", ")", "-LRB-", "-RRB-", "[", "]", "{", "}", "a(b", "-LSB-", "(s)"
 W_PUNCT = [",", ".", "?", "!", ";", ":", "--", "-", "/", "..."]
 W_PAIR = ["\"", "'", "''", "`", "``"]
 W_HASH = ["#5021", "#12", "#", "#abc", "#1234x", "##", "#500th"]
+W_PARENTOK = ["(", ")"]           # stand-alone bracket tokens
 W_USPACE = ["10\u00a0000", "a\u2009b", "\u00a0", "x\u3000y"]      # not whitespace for the formats
 W_LEN = ["abcdefg", "abcdefgh", "abcdefghijklmno", "abcdefghijklmnop", "abcdefghijklmnopq",
          "abcdefghijklmnopqrstuvw", "abcdefghijklmnopqrstuvwx", "abcdefghijklmnopqrstuvwxy",
@@ -154,7 +155,7 @@ def gen_word(rng, k):
         return rng.choice(W_PAIR), rng.choice(P_PUNCT)
     cls = rng.choice(k["words"])
     pool = {"ascii": W_ASCII, "latin1": W_LATIN1, "wide": W_WIDE, "xml": W_XML,
-            "paren": W_PAREN, "len": W_LEN, "hash": W_HASH, "uspace": W_USPACE}[cls]
+            "paren": W_PAREN, "len": W_LEN, "hash": W_HASH, "uspace": W_USPACE, "parentok": W_PARENTOK}[cls]
     pool = pool[:max(1, k.get("vocab", 100))]
     return rng.choice(pool), rng.choice(k["pos"])
 
